@@ -59,6 +59,8 @@ class Evaluator:
             return d
         if isinstance(v, tuple) and v[0] == "opt":
             return 0 if v[1] is None else 1
+        if isinstance(v, tuple) and v[0] == "res":
+            return 0 if v[1] == "Ok" else 1
         raise Unknown("discriminant of %r" % (v,))
 
     def field(self, v, name):
@@ -70,6 +72,8 @@ class Evaluator:
             return v[1][int(name)]
         if isinstance(v, tuple) and v[0] == "opt" and name == "0" and v[1] is not None:
             return v[1]
+        if isinstance(v, tuple) and v[0] == "res" and name == "0":
+            return v[2]
         raise Unknown("field %s of %r" % (name, v))
 
     # ------------------------------------------------------------------ expressions
@@ -114,6 +118,25 @@ class Evaluator:
                 return ("bytes", ast.literal_eval(e[1]))
             except Exception:
                 raise Unknown("byte string constant %s" % e[1])
+        if k in ("static",) or (k == "constx" and self.facts.const(self.crate, str(e[1])) is not None and isinstance(self.facts.const(self.crate, str(e[1])).get("value"), list)):
+            kd = self.facts.const(self.crate, str(e[1]))
+            if kd is None or not isinstance(kd.get("value"), list):
+                raise Unknown("static %s" % (e[1],))
+            return ("table", str(e[1]))
+        if k == "index":
+            base = self.ev(e[1], args, depth)
+            i = self.ev(e[2], args, depth)
+            if isinstance(base, tuple) and base[0] == "table" and isinstance(i, int):
+                data = self.facts.const(self.crate, base[1])["value"]
+                if not 0 <= i < len(data):
+                    raise Unknown("table index out of bounds (would panic)")
+                x = data[i]
+                return ("tuple", list(x)) if isinstance(x, list) else x
+            if isinstance(base, tuple) and base[0] == "bytes" and isinstance(i, int):
+                if not 0 <= i < len(base[1]):
+                    raise Unknown("index out of bounds (would panic)")
+                return base[1][i]
+            raise Unknown("index into %r" % (base,))
         if k == "cindex":
             v = self.ev(e[1], args, depth)
             if isinstance(v, tuple) and v[0] in ("bytes", "str"):
@@ -188,6 +211,8 @@ class Evaluator:
             return 0
         if k == "call":
             return self.ev_call(e, args, depth)
+        if k == "closure":
+            return ("clo", e[1], {k_: self.ev(x_, args, depth) for k_, x_ in ((e[2] or {}) if len(e) > 2 else {}).items()})
         raise Unknown("expression %s" % show(e)[:80])
 
     def ev_call(self, e, args, depth):
@@ -236,6 +261,99 @@ class Evaluator:
             r = self._str_model(short, name, e, args, depth)
             if r is not NotImplemented:
                 return r
+        if fnname in ("std::ops::Fn::call", "std::ops::FnMut::call_mut", "std::ops::FnOnce::call_once") or name in ("std::ops::Fn::call", "std::ops::FnMut::call_mut", "std::ops::FnOnce::call_once"):
+            f = self.ev(e[2][0], args, depth)
+            if isinstance(f, tuple) and f[0] == "clo":
+                from common import fn_of
+                cb = self.facts.body(self.crate, f[1])
+                if cb is None:
+                    raise Unknown("closure body %s" % f[1])
+                tup = self.ev(e[2][1], args, depth) if len(e[2]) > 1 else ("tuple", [])
+                xs = tup[1] if isinstance(tup, tuple) and tup[0] == "tuple" else [tup]
+                return self.call(fn_of(cb), [("struct", "closure", f[2])] + list(xs), depth + 1)
+            raise Unknown("call of a function value that is not a closure literal")
+        if short in ("binary_search_by_key", "binary_search_by", "binary_search"):
+            tb = self.ev(e[2][0], args, depth)
+            if not (isinstance(tb, tuple) and tb[0] == "table"):
+                raise Unknown("binary search on something that is not a constant table")
+            data = self.facts.const(self.crate, tb[1])["value"]
+            from common import fn_of
+
+            def clo_call(clo, x):
+                cb = self.facts.body(self.crate, clo[1])
+                if cb is None:
+                    raise Unknown("closure body %s" % clo[1])
+                env = ("struct", "closure", {k_: self.ev(x_, args, depth) for k_, x_ in (clo[2] or {}).items()})
+                return self.call(fn_of(cb), [env, x], depth + 1)
+            if short == "binary_search_by_key":
+                target = self.ev(e[2][1], args, depth)
+                clo = e[2][2]
+                # the table is sorted by the key (C16.table-algebra); evaluate the key closure on the candidates only
+                lo, hi = 0, len(data)
+                while lo < hi:
+                    mid = (lo + hi) // 2
+                    x = data[mid]
+                    kx = clo_call(clo, ("tuple", list(x)) if isinstance(x, list) else x)
+                    if kx == target:
+                        return ("res", "Ok", mid)
+                    if kx < target:
+                        lo = mid + 1
+                    else:
+                        hi = mid
+                return ("res", "Err", lo)
+            if short == "binary_search_by":
+                clo = e[2][1]
+                lo, hi = 0, len(data)
+                while lo < hi:
+                    mid = (lo + hi) // 2
+                    x = data[mid]
+                    o = clo_call(clo, ("tuple", list(x)) if isinstance(x, list) else x)
+                    if not (isinstance(o, tuple) and o[0] == "enum"):
+                        raise Unknown("comparator result %r" % (o,))
+                    if o[2] == "Equal":
+                        return ("res", "Ok", mid)
+                    if o[2] == "Less":
+                        lo = mid + 1
+                    else:
+                        hi = mid
+                return ("res", "Err", lo)
+            raise Unknown("binary_search")
+        if short == "cmp" and len(e[2]) == 2:
+            a, b = argv()
+            if isinstance(a, int) and isinstance(b, int):
+                return ("enum", "Ordering", "Less" if a < b else ("Equal" if a == b else "Greater"))
+        if "Result" in name and short in ("map_or", "ok", "is_ok", "is_err", "unwrap_or", "map", "err"):
+            v = self.ev(e[2][0], args, depth)
+            if isinstance(v, tuple) and v[0] == "res":
+                if short == "ok":
+                    return ("opt", v[2] if v[1] == "Ok" else None)
+                if short == "err":
+                    return ("opt", v[2] if v[1] == "Err" else None)
+                if short == "is_ok":
+                    return int(v[1] == "Ok")
+                if short == "is_err":
+                    return int(v[1] == "Err")
+                if short == "unwrap_or":
+                    return v[2] if v[1] == "Ok" else self.ev(e[2][1], args, depth)
+                if short == "map_or":
+                    if v[1] != "Ok":
+                        return self.ev(e[2][1], args, depth)
+                    clo = e[2][2]
+                    from common import fn_of
+                    cb = self.facts.body(self.crate, clo[1]) if clo[0] == "closure" else None
+                    if cb is None:
+                        raise Unknown("map_or function")
+                    env = ("struct", "closure", {k_: self.ev(x_, args, depth) for k_, x_ in (clo[2] or {}).items()})
+                    return self.call(fn_of(cb), [env, v[2]], depth + 1)
+        if "<impl char>::" in name and short in ("is_lowercase", "is_uppercase", "is_alphanumeric", "is_alphabetic", "is_numeric", "is_whitespace", "is_ascii"):
+            c = argv()[0]
+            if isinstance(c, int):
+                import unicodedata
+                ch = chr(c)
+                cat = unicodedata.category(ch)
+                return int({"is_lowercase": ch.islower() or cat == "Ll", "is_uppercase": ch.isupper() or cat == "Lu",
+                            "is_alphanumeric": ch.isalnum(), "is_alphabetic": ch.isalpha(), "is_numeric": ch.isnumeric(),
+                            "is_whitespace": ch.isspace(), "is_ascii": c < 128}[short])
         # ---- byte-slice searches and the iterator consumers applied to their results
         if short in ("find", "rfind") and "memmem" in name:
             h, n = argv()
